@@ -18,6 +18,7 @@ import M4riProofs.Props.C01
 import M4riProofs.Top
 import M4riProofs.GenTie
 import M4riProofs.GenTieSlice
+import M4riProofs.GenTieRec
 namespace M4ri.Props.C12
 open M4ri M4ri.BMat
 
@@ -125,5 +126,13 @@ end cfg2
 /-! ### tie to the C text: loops cut out of larger C functions (generated by vlib/ctrans.py on every check, proved equal to the
     model in GenTieSlice.lean) -/
 #check @M4ri.GenTieSlice.plePermUpdate_model
+
+
+/-! ### tie to the C text: the COMPLETE C functions `_mzd_trsm_*` (regime switch incl. the block-size expression, inline base cases of the
+    left variants, 5 windows, two recursive calls, one product) are generated by vlib/ctrans.py on every check with their callees as
+    function parameters; instantiated with the model's own recursion at `fuel` they equal one step of the model recursion (GenTieRec.lean) -/
+#check @M4ri.GenTieRec.blocksize_eq
+#check @M4ri.GenTieRec.trsmUpperRightRec_step
+#check @M4ri.GenTieRec.trsmLowerLeftRec_step
 
 end M4ri.Props.C12
